@@ -563,7 +563,7 @@ func checkC15() int {
 		}
 		// explicit polarities (either sign: printing does not depend on typing) on payloads,
 		// continuations, arguments and on the binders of recv / split / case / cut
-		for k := 0; k < 3; k++ {
+		for k := 0; k < 5; k++ {
 			if m := mut.Mutate(pc.P, mr, "polarity"); m != nil {
 				t := m.P.Text()
 				jobs = append(jobs, sup.Job{Kind: "termrt", Text: t})
